@@ -128,3 +128,16 @@ with upper_ok_hs (hs : handlers) : bool :=
   end.
 
 Definition upper_ok (p : block) : bool := upper_ok_b p.
+
+(* the fragment for which the upper bound is proved so far (stage 1): upper_ok programs built
+   from assignments, uses, calls, pass, return, raise and if/else *)
+Fixpoint flat_s (s : stmt) : bool :=
+  match s with
+  | SIf b e => flat_b b && flat_b e
+  | SLoop _ _ _ | SWith _ _ | STry _ _ _ _ => false
+  | _ => true
+  end
+with flat_b (b : block) : bool :=
+  match b with BNil => true | BCons s r => flat_s s && flat_b r end.
+
+Definition upper1_ok (p : block) : bool := upper_ok p && flat_b p.
